@@ -12,6 +12,18 @@ def main():
     try:
         mods = sorted(f for f in os.listdir(d) if f.endswith(".tla"))
         for m in mods:
+            if "Apalache" in open(os.path.join(d, m)).read().split("EXTENDS", 1)[-1].split("\n", 1)[0]:
+                # typed for Apalache (its standard module is not on SANY's path): parse and type-check with apalache-mc
+                try:
+                    cp = subprocess.run(["apalache-mc", "typecheck", "--out-dir=" + os.path.join(d, "apa-out"), m], cwd=d,
+                                        stdout=subprocess.PIPE, stderr=subprocess.STDOUT, timeout=300)
+                    if cp.returncode != 0:
+                        print("APALACHE TYPECHECK FAILED:", m)
+                        print(cp.stdout.decode()[-2000:])
+                        rc = 1
+                except (OSError, subprocess.TimeoutExpired) as e:
+                    print("note: apalache-mc typecheck of %s not run (%s)" % (m, type(e).__name__))
+                continue
             cp = subprocess.run(["java", "-cp", tla._classpath(), "tla2sany.SANY", m], cwd=d,
                                 stdout=subprocess.PIPE, stderr=subprocess.STDOUT, timeout=120)
             out = cp.stdout.decode()
